@@ -25,6 +25,7 @@ import (
 	"encoding/json"
 	"flag"
 	"fmt"
+	"iter"
 	"math/rand"
 	"os"
 	"path/filepath"
@@ -481,6 +482,45 @@ func c17Execute(seed int64, prog c17Program) (*c17History, error) {
 		}
 	}
 	h.final = tg.iterate(pl, false)
+	// one iterator value consumed more than once (a second traversal, a traversal after an early stop, two goroutines
+	// ranging the same value) yields the same sequence every time
+	{
+		collect := func(it iter.Seq2[ipld.Block, error], stopAfter int) []string {
+			var ls []string
+			for b, err := range it {
+				if err != nil {
+					ls = append(ls, "err")
+					continue
+				}
+				ls = append(ls, b.Link().String())
+				if stopAfter > 0 && len(ls) >= stopAfter {
+					break
+				}
+			}
+			return ls
+		}
+		var it iter.Seq2[ipld.Block, error]
+		if tg.dlg != nil {
+			it = tg.dlg.Blocks()
+		} else {
+			it = tg.bs.Iterator()
+		}
+		first := collect(it, 0)
+		_ = collect(it, 1)
+		second := collect(it, 0)
+		var c1, c2 []string
+		var wg sync.WaitGroup
+		wg.Add(2)
+		go func() { defer wg.Done(); c1 = collect(it, 0) }()
+		go func() { defer wg.Done(); c2 = collect(it, 0) }()
+		wg.Wait()
+		for _, other := range [][]string{second, c1, c2} {
+			if strings.Join(other, ",") != strings.Join(first, ",") {
+				h.anomalies = append(h.anomalies, fmt.Sprintf("final: the same iterator value traversed again yields %d items, first traversal %d", len(other), len(first)))
+				break
+			}
+		}
+	}
 	if prog.variant == "store" {
 		for j := 0; j < prog.nk; j++ {
 			found, val, err := tg.get(pl, j)
